@@ -1,19 +1,29 @@
 #!/bin/bash
-# tools/seed_regress.sh [name-prefix ...]  - re-runs the quick check of every kept seeded change (seeded/<PROP>-<name>/patch.diff)
-# against a scratch copy of /repo with the patch applied; every line must say CAUGHT.
+# tools/seed_regress.sh [-j N] [name-prefix ...]  - re-runs the quick check of every kept seeded change
+# (seeded/<PROP>-<name>/patch.diff) against a scratch copy of /repo with the patch applied; every line must say CAUGHT.
+# -j N: N seeds at a time (each check then uses 16/N worker processes).
 cd "$(dirname "$(readlink -f "$0")")/.." || exit 3
+J=1; if [ "$1" = "-j" ]; then J=$2; shift 2; fi
+if [ "$1" = "--one" ]; then
+  # internal: one seed directory, one output line
+  d=$2; SCR=$3; n=$(basename "$d"); id=${n%%-*}; W="$SCR/$n"
+  mkdir -p "$W/r" "$W/ev" "$W/rp"
+  (cd /repo && tar --exclude=.git --exclude=__pycache__ -cf - .) | tar -xf - -C "$W/r"
+  if ! (cd "$W/r" && patch -p1 -s --no-backup-if-mismatch < "$OLDPWD/$d/patch.diff") >/dev/null 2>&1; then
+    printf '%-10s %s\n' "$n" "PATCH-DOES-NOT-APPLY"; rm -rf "$W"; exit 1; fi
+  out=$(VERIF_REPO=$W/r VERIF_EVIDENCE_DIR=$W/ev VERIF_REPLAY_DIR=$W/rp VERIF_NPROC=${VERIF_NPROC:-16} ./check "$id" quick 2>&1); c=$?
+  if echo "$out" | grep -q '^VIOLATION'; then det=CAUGHT; r=0; else det="MISSED(rc=$c)"; r=1; fi
+  printf '%-10s %-14s %s\n' "$n" "$det" "$(echo "$out" | grep -o 'sig=[^ ]*' | sort -u | head -2 | tr '\n' ' ')"
+  rm -rf "$W"; exit $r
+fi
 SCR=$(mktemp -d /var/tmp/verif-seedreg.XXXXXX); trap 'rm -rf "$SCR"' EXIT
 sel="$@"; [ -z "$sel" ] && sel="C"
-rc=0
+list=()
 for d in seeded/*/; do
-  n=$(basename "$d"); ok=0; for s in $sel; do case "$n" in $s*) ok=1;; esac; done; [ $ok = 1 ] || continue
-  id=${n%%-*}
-  rm -rf "$SCR/r"; mkdir -p "$SCR/r" "$SCR/ev" "$SCR/rp"
-  (cd /repo && tar --exclude=.git --exclude=__pycache__ -cf - .) | tar -xf - -C "$SCR/r"
-  if ! (cd "$SCR/r" && patch -p1 -s --no-backup-if-mismatch < "$OLDPWD/$d/patch.diff") >/dev/null 2>&1; then
-    printf '%-10s %s\n' "$n" "PATCH-DOES-NOT-APPLY"; rc=1; continue; fi
-  out=$(VERIF_REPO=$SCR/r VERIF_EVIDENCE_DIR=$SCR/ev VERIF_REPLAY_DIR=$SCR/rp ./check "$id" quick 2>&1); c=$?
-  if echo "$out" | grep -q '^VIOLATION'; then det=CAUGHT; else det="MISSED(rc=$c)"; rc=1; fi
-  printf '%-10s %-14s %s\n' "$n" "$det" "$(echo "$out" | grep -o 'sig=[^ ]*' | sort -u | head -2 | tr '\n' ' ')"
+  n=$(basename "$d"); ok=0; for s in $sel; do case "$n" in $s*) ok=1;; esac; done; [ $ok = 1 ] && list+=("${d%/}")
 done
-exit $rc
+export VERIF_NPROC=$(( 16 / J )); [ "$VERIF_NPROC" -lt 1 ] && VERIF_NPROC=1
+printf '%s\n' "${list[@]}" | xargs -P "$J" -I{} "$0" --one {} "$SCR" > "$SCR/out.txt"; rc=$?
+sort "$SCR/out.txt"
+[ $rc = 0 ] || exit 1
+exit 0
